@@ -250,7 +250,7 @@ impl Base {
     }
 
     pub fn scenario(&self, family: &'static str, desc: String, now: u64, worlds: Vec<Table>, steps: Vec<Step>) -> Scenario {
-        Scenario { anchors: self.anchor_list(), query: key_of(&self.qname, self.qtype), t0: now, worlds, steps, desc: format!("{} {}: {}", family, self.name, desc), family }
+        Scenario { cfg: Default::default(), anchors: self.anchor_list(), query: key_of(&self.qname, self.qtype), t0: now, worlds, steps, desc: format!("{} {}: {}", family, self.name, desc), family }
     }
 
     pub fn single(&self, family: &'static str, desc: String, now: u64, spec: &WorldSpec) -> Scenario {
@@ -781,6 +781,23 @@ pub fn clock_grid(b: &Base, thorough: bool) -> Vec<Scenario> {
     out
 }
 
+/// The handle configurations of the history family: TTL bounds of the validation cache below,
+/// around and above the signature lifetimes used in the histories (100 s and 1000 s), degenerate
+/// ranges, and a tiny cache.
+pub fn handle_configs() -> Vec<crate::scen::HandleCfg> {
+    use crate::scen::HandleCfg;
+    let ranges: [(u64, u64); 5] = [(0, 0), (5, 10), (200, 400), (0, 1), (1000, 1000)];
+    let mut v = vec![];
+    for r in ranges {
+        v.push(HandleCfg { positive: Some(r), ..Default::default() });
+        v.push(HandleCfg { negative: Some(r), ..Default::default() });
+    }
+    v.push(HandleCfg { positive: Some((200, 400)), negative: Some((200, 400)), cache_size: None });
+    v.push(HandleCfg { positive: Some((1000, 1000)), negative: Some((5, 10)), cache_size: Some(1) });
+    v.push(HandleCfg { cache_size: Some(1), ..Default::default() });
+    v
+}
+
 // ------------------------------------------------------------------------------------------
 // F4: histories on one shared handle (validation cache)
 
@@ -791,6 +808,8 @@ pub struct HistoryBlock {
     pub ops: Vec<Step>,
     pub depth: u32,
     pub config: &'static str,
+    /// configuration of the handle under test
+    pub cfg: crate::scen::HandleCfg,
 }
 
 impl HistoryBlock {
@@ -824,7 +843,11 @@ impl HistoryBlock {
         for t in [99u64, 100, 101, 301, 1001] {
             ops.push(Step::JumpTo(t));
         }
-        HistoryBlock { base: b.clone(), worlds, world_names, ops, depth, config: if dk_narrow { "dnskey-rrsig-expires-too" } else { "dnskey-rrsig-long" } }
+        HistoryBlock { base: b.clone(), worlds, world_names, ops, depth, config: if dk_narrow { "dnskey-rrsig-expires-too" } else { "dnskey-rrsig-long" }, cfg: Default::default() }
+    }
+    pub fn with_cfg(mut self, cfg: crate::scen::HandleCfg) -> Self {
+        self.cfg = cfg;
+        self
     }
     pub fn count(&self) -> u64 {
         (self.ops.len() as u64).pow(self.depth)
@@ -844,6 +867,8 @@ impl HistoryBlock {
             steps.push(op);
         }
         // record TTL 300, signature window [t0-10, t0+100]
-        self.base.scenario("history", format!("[{}] {}", self.config, desc.join(" ; ")), T0, self.worlds.clone(), steps)
+        let mut sc = self.base.scenario("history", format!("[{}; handle {}] {}", self.config, self.cfg.tag(), desc.join(" ; ")), T0, self.worlds.clone(), steps);
+        sc.cfg = self.cfg.clone();
+        sc
     }
 }
